@@ -31,7 +31,7 @@ from dashlive.server.manifests import DashManifest
 from dashlive.server.options.container import OptionsContainer
 from dashlive.server.options.types import OptionUsage
 from dashlive.utils import objects
-from dashlive.utils.date_time import scale_timedelta
+from dashlive.utils.date_time import from_isodatetime, scale_timedelta
 from dashlive.utils.json_object import JsonObject
 from dashlive.utils.lang import lang_is_equal
 from dashlive.utils.timezone import UTC
@@ -578,8 +578,14 @@ class ManifestContext:
             seconds=timeShiftBufferDepth)
         for item in errors:
             code, pos = item
+            if isinstance(pos, str):
+                # e.g. a videoCorruption time such as "00:00:20Z"
+                pos = from_isodatetime(pos)
             if isinstance(pos, int):
                 drop_seg = pos
+            elif pos is None or availabilityStartTime is None:
+                # a time of day is only meaningful for a live stream
+                continue
             else:
                 tm = availabilityStartTime.replace(
                     hour=pos.hour, minute=pos.minute, second=pos.second)
